@@ -4,6 +4,9 @@ is built from /repo's working tree, budgets, and the static evidence fields."""
 BUILD_VH = [{"cmd": ["cargo", "build", "--release", "--offline", "-p", "vh"]}]
 BUILD_GLAS_PLAIN = [{"cmd": ["cargo", "build", "--release", "--offline", "-p", "glas"], "cwd": "$REPO", "env": {"CARGO_TARGET_DIR": "/verif/target/glas-plain"}}]
 BUILD_GLAS_VERIF = [{"cmd": ["cargo", "build", "--release", "--offline", "-p", "glas", "--features", "verif"], "cwd": "$REPO", "env": {"CARGO_TARGET_DIR": "/verif/target/glas-verif"}}]
+# Thorough tier only: the same oracles with the real parser *interpreted* by Miri (undefined behaviour,
+# out-of-bounds, use-after-free, invalid enum values, uninitialised reads abort the interpreter with a report).
+MIRI_SYNTAX = {"bin": "mi_syntax", "runner": "miri", "tiers": ["thorough"], "shards": 8, "args": ["--cases", "60"]}
 GLAS_PLAIN = "/verif/target/glas-plain/release/glas"
 GLAS_VERIF = "/verif/target/glas-verif/release/glas"
 BUILD_VTEXT = [{"cmd": ["cargo", "build", "--release", "--offline", "-p", "vtext"]}]
@@ -11,6 +14,8 @@ BUILD_VTEXT = [{"cmd": ["cargo", "build", "--release", "--offline", "-p", "vtext
 PROPS = {
     "C01": {
         "bin": "m_syntax",
+        "engines": [{"bin": "m_syntax", "share": 1},
+                    MIRI_SYNTAX],
         "build": BUILD_VH,
         "level": "exploration",
         "budget": {"quick": 16, "thorough": 240},
@@ -30,6 +35,8 @@ PROPS = {
     },
     "C02": {
         "bin": "m_syntax",
+        "engines": [{"bin": "m_syntax", "share": 1},
+                    MIRI_SYNTAX],
         "build": BUILD_VH,
         "level": "exploration",
         "budget": {"quick": 16, "thorough": 240},
@@ -37,7 +44,9 @@ PROPS = {
         "death_is_violation": True,
         "rule": ("cases = the C01 workload (exhaustive lexeme sequences, corpus prefixes, mutants, random text, keyword soup) executed on a 2 MiB stack under a "
                  "panic hook + catch_unwind, plus 23 delimiter/prefix towers x depths 16..16384 [thorough ..65536] closed and unclosed and 20 long chains x lengths "
-                 "100..10000 [thorough 20000], each in its own child process whose exit status/signal is observed. Non-trivial = errors reported or text longer than 8 bytes "
+                 "100..10000 [thorough 20000], each in its own child process whose exit status/signal is observed; plus a nesting-bound sweep: 48 recursion units (every production that recurses: "
+                 "delimiters, prefix operators, lambdas, case clauses/guards/alternatives, constructor and list patterns, bit-array segments, let/use/pipe/binary right operands, type applications, fn types, constants) "
+                 "x depths 118..134 around the parser's bound of 128 x 41 tails (every lexeme, and none), unclosed, and 1500 [thorough 20000] towers of randomly mixed units. Non-trivial = errors reported or text longer than 8 bytes "
                  "(tower/chain cases always); distinct by FNV-1a of the text / generator spec."),
         "exhaustive_scope": "the lexeme-sequence sub-space only",
         "assumptions": [
@@ -72,14 +81,15 @@ PROPS = {
         "timeout": {"quick": 900, "thorough": 7200},
         "death_is_violation": False,
         "rule": ("cases = (a) exhaustively all ordered pairs and triples of the 23 infix operators (22 binary + pipe) in every association shape, with prefix/postfix atoms, printed with braces only where Gleam's precedence "
-                 "table and left associativity require; (b) seeded random programs from the reference grammar (imports with unqualified/type/aliased members, custom types with generics and labelled fields, aliases, constants, "
+                 "table and left associativity require; (a') exhaustively every string-literal content of up to four pieces over {plain, escaped backslash, escaped quote, \\n escape, space, non-ASCII, raw newline, unicode escape} "
+                 "followed by more code (the literal must end at its own closing quote); (b) seeded random programs from the reference grammar (imports with unqualified/type/aliased members, custom types with generics and labelled fields, aliases, constants, "
                  "functions with labelled/annotated/discarded parameters, attributes, let/let assert/use/expression statements, all expression and pattern forms, type expressions) printed with random legal trivia. "
                  "Non-trivial = contains a function body; distinct by FNV-1a of the text."),
-        "exhaustive_scope": "operator pairs and triples; programs are sampled",
+        "exhaustive_scope": "operator pairs and triples, string-literal contents up to 4 pieces; programs are sampled",
         "assumptions": [
             "oracle: zero syntax errors and CST read back through the public typed accessors == the generator's intended structure (S-expression equality), plus accessor cross-checks (op_kind table; Param.ty / StmtLet.body must return the child in that slot)",
             "supported surface = the generator's grammar: no record update, no `echo`, no `let assert ... as`, bit arrays only as an opaque blob, no `x as y` on a bare variable pattern, no chained tuple index `a.0.1`",
-            "multi-subject clauses with alternatives (`a, b | c, d`) are generated only when GenCfg.multi_alt is on (see known findings)",
+            "multi-subject clauses with alternatives (`a, b | c, d`) are not generated",
         ],
     },
     "C09": {
@@ -114,7 +124,7 @@ PROPS = {
                  "spread/hole/duplicate-label calls, field access on non-records, tuple index out of range, lambda without parameter list, pipes into non-functions, constructor patterns with too many fields, "
                  "recursive aliases/types; self-imports and import cycles of length 2-3 through qualified, unqualified and type imports), (b) each repository/corpus .gleam file pristine and as 3 mutated windows, "
                  "(c) seeded generated workspaces of 1-4 modules put through 0-3 damage operations (token/char mutation, truncation, item duplication, self-import, import cycles, unresolved/duplicate imports, "
-                 "degenerate files, hostile snippets). Queries: hover, goto, references, highlight, completion (plain, '.', '@'), signature help, prepare-rename, rename (valid lower, valid upper, invalid), "
+                 "degenerate files, hostile snippets, and - one workspace in five - a UTF-8 byte order mark in front of one file). Queries: hover, goto, references, highlight, completion (plain, '.', '@'), signature help, prepare-rename, rename (valid lower, valid upper, invalid), "
                  "semantic highlight (full, 4 ranges), diagnostics, syntax tree - on every file including gleam.toml, at every token boundary, offset 0, EOF and around/inside every multi-byte character "
                  "(sampled down to 400 offsets per file for long files). Each runs on a 2 MiB stack under a panic hook; the workspace is journaled first so a process death is attributable. "
                  "A workspace is non-trivial if it has >=1 damage op or >=2 modules; distinct by FNV-1a of its files."),
@@ -149,7 +159,7 @@ PROPS = {
         "death_is_violation": False,
         "rule": ("workspaces of 1-4 modules from the scope-aware generator (names from pools of 4-7 spellings per namespace, so shadowing is the norm; imports qualified, aliased, unqualified, unqualified-aliased, "
                  "type imports; all statement/expression/pattern forms); goto_definition is asked at the start and end offset of EVERY identifier the printer emitted and compared with the binding the generator "
-                 "recorded. A workspace is non-trivial if some module declares one spelling at least twice (shadowing); distinct by FNV-1a of its files; evaluations = goto queries."),
+                 "recorded. A workspace is non-trivial if some module declares one spelling at least twice (shadowing); distinct by FNV-1a of its files; evaluations = goto queries. One workspace in three is split into two local packages (`app` depends on `lib` by path; imports only point from app to lib), so cross-package references, renames and completions are exercised."),
         "assumptions": [
             "soundness everywhere: an answer must be the recorded declaration (file + focus range as glas defines it per kind: name token; whole variant; whole `label: Type` field; `..name` spread; 0..0 for modules)",
             "completeness on the supported core only (DESIGN §5 C05): uses inside unary operands, guards, `todo as`, qualified constants and module qualifiers in pattern/type position are soundness-only",
@@ -166,7 +176,7 @@ PROPS = {
         "death_is_violation": False,
         "rule": ("workspaces = repository/corpus .gleam files, scope-aware generated workspaces, and generated workspaces put through damage (mutation, truncation, import rewiring). Census: goto at every IDENT/U_IDENT token. "
                  "For every non-module target D: own(D) = first identifier token in D's focus range, S_D = {own(D)} + tokens spelled like it whose goto is D. Law: goto(own(D)) = D; references asked at every member of S_D "
-                 "equals S_D as a set, no duplicates; highlight_related equals S_D restricted to the file. Non-trivial = some S_D has >= 2 members; distinct by FNV-1a of the files; evaluations = goto + references queries."),
+                 "equals S_D as a set, no duplicates; highlight_related equals S_D restricted to the file. Non-trivial = some S_D has >= 2 members; distinct by FNV-1a of the files; evaluations = goto + references queries. One workspace in three is split into two local packages (`app` depends on `lib` by path; imports only point from app to lib), so cross-package references, renames and completions are exercised."),
         "assumptions": [
             "pure law between two real APIs, no ground truth: a goto bug that is mirrored in references is C05's to find",
             "occurrences reaching D through an alias spelling are neither required nor allowed in the set (as the statement says)",
@@ -184,7 +194,7 @@ PROPS = {
                  "rename to a fresh name of the right case that occurs nowhere; if accepted: (1) every edit replaces one whole IDENT/U_IDENT token spelled with the old name, edits disjoint, no duplicates; "
                  "(2) edit set == references; (3) the edited workspace is loaded into a NEW AnalysisHost and goto at every identifier token equals the position-mapped goto before; (4) syntax errors unchanged under the map; "
                  "(5) renaming back restores every file byte for byte; (6) against the generator's sidecar: every core occurrence of the symbol was edited and no occurrence of another symbol was. "
-                 "evaluations = rename attempts; non-trivial = accepted rename with >= 2 edits; distinct by (workspace seed, occurrence)."),
+                 "evaluations = rename attempts; non-trivial = accepted rename with >= 2 edits; distinct by (workspace seed, occurrence). One workspace in three is split into two local packages (`app` depends on `lib` by path; imports only point from app to lib), so cross-package references, renames and completions are exercised."),
         "assumptions": [
             "fresh names zz_fresh<k>_q / ZzFresh<k>Q are checked textually absent from the workspace, so capture is impossible by construction",
             "common fields: all variants' fields of one common label are one symbol (glas's definition); field access on possibly ill-typed bases is not part of the ground truth (see C05)",
@@ -218,7 +228,7 @@ PROPS = {
         "rule": ("generated workspaces with up to 2 placeholder identifiers per function at expression positions; the generator records the set of value names visible there (locals innermost-first, module functions/constants/"
                  "constructors, unqualified imports under their local names) and the module accessors. completions(cursor at end of placeholder) must offer exactly that set (keywords/snippets and the five built-in constructors ignored), "
                  "each item replacing exactly the placeholder, and after accepting an item goto on the inserted name must reach the recorded declaration (fresh host). At every qualified use `m.x` completion with trigger '.' "
-                 "must offer exactly m's public functions and constructors of public non-opaque types. non-trivial = hole with >= 3 visible names; distinct by (workspace seed, hole)."),
+                 "must offer exactly m's public functions and constructors of public non-opaque types. non-trivial = hole with >= 3 visible names; distinct by (workspace seed, hole). One workspace in three is split into two local packages (`app` depends on `lib` by path; imports only point from app to lib), so cross-package references, renames and completions are exercised."),
         "assumptions": [
             "expected sets come from the generator's own scoping, never from glas",
             "`value.` field completion is checked on typed programs only (C09 engine), because scoped-mode programs may be ill-typed",
@@ -313,6 +323,8 @@ PROPS = {
     },
     "C12": {
         "bin": "m_conc",
+        "engines": [{"bin": "m_conc", "share": 1},
+                    {"bin": "mi_conc", "runner": "miri", "tiers": ["thorough"], "shards": 8, "args": ["--rounds", "3"]}],
         "build": BUILD_VH,
         "level": "exploration",
         "budget": {"quick": 25, "thorough": 900},
@@ -360,7 +372,8 @@ PROPS = {
         "timeout": {"quick": 1500, "thorough": 14400},
         "death_is_violation": False,
         "rule": ("project trees written to disk: root package `app` with 1-3 registry dependencies under build/packages/<name> (each listed directly by the root with probability 2/3, with random dependency edges among them: diamonds and "
-                 "transitive-only packages), optionally a `path = \"../pathdep\"` dependency, 1-3 modules per package from a pool of 8 names incl. nested directories (equal module names in different packages are common), a test/ module, "
+                 "transitive-only packages), optionally a `path = \"../pathdep\"` dependency which lists a random subset of the root's registry packages as its own dependencies (the monorepo layout: everything is fetched into the ROOT's build/packages) "
+                 "and, one time in three, has a private build/packages/<name> with ANOTHER copy of one of them (other modules), 1-3 modules per package from a pool of 8 names incl. nested directories (equal module names in different packages are common), a test/ module, "
                  "and a free-standing file without gleam.toml; every package's entry module imports 5 module names sampled from the whole tree. A fresh real server per tree; entry modules and the free-standing file are opened root-first, "
                  "dependency-first or free-standing-first. textDocument/definition is asked on every qualified use, prepareRename on every resolved one, hover and glas/syntaxTree in the free-standing file. "
                  "evaluations = trees; distinct by FNV-1a of the tree description."),
@@ -369,6 +382,8 @@ PROPS = {
             "if only a transitive or unrelated package has it the answer must be empty; several candidates: any; target URIs are compared after lexical normalisation (path dependencies come back as root/../pathdep/...); "
             "symbols of build/packages/* must refuse prepareRename, symbols of the root and of path dependencies must accept it; the free-standing file must get hover and syntax-tree answers",
             "the `gleam` executable is absent: dependency discovery is glas's own (assemble_graph over gleam.toml files)",
+            "twice-present package (root's build/packages and the path dependency's private build/packages): packages under the root must resolve to the root's copy only; for the path dependency either copy is accepted "
+            "(it can be analysed as part of the root project or as a project of its own); documents inside the private copy are neither opened nor judged as importers",
         ],
     },
 }
